@@ -2,6 +2,7 @@
 # run every check of the manifest once (tier $1, default quick); summary lines on stdout
 cd "$(dirname "$0")/.."
 TIER=${1:-quick}
+mkdir -p "${LOGDIR:-/tmp/w}"
 shift
 IDS=${*:-C01 C02 C03 C04 C05 C06 C07 C08 C09 C10 C11 C12 C13 C14 C15 C16 C17 C18 C19 C20}
 for id in $IDS; do
